@@ -182,3 +182,76 @@ func init() {
 		return smt.Ite(eq, m.mkInt(1), m.mkInt(0))
 	})
 }
+
+func init() {
+	reg := func(name string, f intrinsic) { intrinsics[name] = f }
+	// scrypt / pbkdf2: uninterpreted functions of password, salt and the cost parameters
+	reg("golang.org/x/crypto/scrypt.Key", func(m *Machine, a []Value) Value {
+		pw, salt := m.sliceBytes(a[0].(SliceVal)), m.sliceBytes(a[1].(SliceVal))
+		n, r, p, kl := concInt(m, a[2], "scrypt N"), concInt(m, a[3], "scrypt r"), concInt(m, a[4], "scrypt p"), int(concInt(m, a[5], "scrypt keyLen"))
+		name := fmt.Sprintf("scrypt_N%d_r%d_p%d_pw%d", n, r, p, len(pw))
+		in := append(append([]*smt.Term(nil), pw...), salt...)
+		if len(in) == 0 {
+			in = []*smt.Term{m.mkByte(0)}
+		}
+		var out []*smt.Term
+		if cb, ok := allConst(in); ok {
+			// concrete inputs: still opaque, but a fixed function of them
+			h := sha512.Sum512(append([]byte(name), cb...))
+			out = m.constBytes(h[:])
+			for len(out) < kl {
+				out = append(out, out...)
+			}
+			out = out[:kl]
+		} else {
+			out = m.ufBytes(name, in, kl)
+		}
+		return TupleVal{m.bytesSlice(out), IfaceVal{}}
+	})
+	reg("golang.org/x/crypto/pbkdf2.Key", func(m *Machine, a []Value) Value {
+		pw, salt := m.sliceBytes(a[0].(SliceVal)), m.sliceBytes(a[1].(SliceVal))
+		iter, kl := concInt(m, a[2], "pbkdf2 iter"), int(concInt(m, a[3], "pbkdf2 keyLen"))
+		name := fmt.Sprintf("pbkdf2_i%d_pw%d", iter, len(pw))
+		in := append(append([]*smt.Term(nil), pw...), salt...)
+		if len(in) == 0 {
+			in = []*smt.Term{m.mkByte(0)}
+		}
+		m.pbkdf2Calls = append(m.pbkdf2Calls, fmt.Sprintf("iter=%d keyLen=%d", iter, kl))
+		return m.bytesSlice(m.ufBytes(name, in, kl))
+	})
+	// randomness: fresh environment bytes
+	fresh := func(m *Machine, n int) []*smt.Term {
+		out := make([]*smt.Term, n)
+		for i := range out {
+			if m.Cfg.IsConc || m.IntMode() {
+				out[i] = m.mkByte(0)
+			} else {
+				out[i] = m.skolemBV("rand", 8)
+			}
+		}
+		m.skolem -= n - 1 // keep the model cache usable: randomness is not an input, count it once
+		if n == 0 {
+			m.skolem++
+		}
+		return out
+	}
+	reg("crypto/rand.Read", func(m *Machine, a []Value) Value {
+		sv := a[0].(SliceVal)
+		arr := m.backing(sv)
+		for i, b := range fresh(m, sv.Len) {
+			m.noteWrite(sv.Obj, &arr.E[sv.Off+i])
+			arr.E[sv.Off+i] = b
+		}
+		return TupleVal{m.mkInt(int64(sv.Len)), IfaceVal{}}
+	})
+	reg("io.ReadFull", func(m *Machine, a []Value) Value {
+		// only used with crypto/rand.Reader in the targeted code
+		sv := a[1].(SliceVal)
+		arr := m.backing(sv)
+		for i, b := range fresh(m, sv.Len) {
+			m.noteWrite(sv.Obj, &arr.E[sv.Off+i])
+			arr.E[sv.Off+i] = b
+		}
+		return TupleVal{m.mkInt(int64(sv.Len)), IfaceVal{}}
+	})
+}
